@@ -5,7 +5,7 @@ and the `strtoll(p, &pe, 0)` call of the number branch.
 
 The double branch calls `iwstrtod`; the parser model takes it as a parameter
 `sd : Bytes → Nat × Nat × Bool` (bit pattern, bytes consumed, `errno == ERANGE` afterwards), so that theorems
-treat doubles as opaque bit patterns; the driver passes the `Float` mirror of `iwstrtod` (Model/JsonFloat.lean).
+treat doubles as opaque bit patterns; the driver passes `iwstrtodModel` (Model/Strtod.lean, soft-float).
 
 The text is a C string: the end of the list and a `0` byte both mean NUL. Loops of the C code are recursion on
 a fuel argument (`2 * length + 4` always suffices, see `parse`). -/
